@@ -22,6 +22,14 @@ pub enum T {
     Vec(Box<T>),
     Ref(Box<T>),
     Fn(Vec<T>, Box<T>),
+    /// `Bx[T]` — generic struct with one field (rich_generics)
+    Bx(Box<T>),
+    /// `Pr[A, B]` — generic struct with two parameters (rich_generics)
+    Pr(Box<T>, Box<T>),
+    /// `Lst[T]` — recursive generic enum (rich_generics)
+    Lst(Box<T>),
+    /// a type parameter of the generic function being generated
+    Param(usize),
 }
 
 #[derive(Clone, Copy, Debug, Default)]
@@ -35,6 +43,23 @@ pub struct Cfg {
     pub effects: bool,
     /// let `array_set` results flow un-annotated (wildcard array length, known finding)
     pub wildcard_arrays: bool,
+    /// surface forms whose meaning the front end decides: struct patterns with their fields in
+    /// declaration / reversed / shuffled order (with `_`, shorthand, literal sub-patterns), nested
+    /// struct-in-enum-in-tuple patterns, struct literals with fields out of order, string and
+    /// integer literal patterns, locals spelled like functions, the three call forms of a method
+    pub src_forms: bool,
+    /// struct literals written out of declaration order whose initialisers have effects
+    /// (evaluation order of the initialisers; known finding): separate stream
+    pub lit_field_effects: bool,
+    /// C07: a library of generic functions / methods / types, random generic functions, and
+    /// instantiations at tuples, arrays, Ref, function types, structs, enums, nested generic types
+    pub rich_generics: bool,
+    /// C07: generic functions over `Vec[T]` and generic types inside `Vec`
+    pub vec_generics: bool,
+    /// C07: generic functions with a `dyn Trait` parameter, type parameters instantiated at `dyn Trait`
+    pub dyn_generics: bool,
+    /// C07: a generic function used as a first-class value (known finding): own stream
+    pub generic_fn_values: bool,
     /// C06: matches with nested patterns (tuples, structs, enums, literals) over random data types
     pub nested_patterns: bool,
 }
@@ -49,6 +74,10 @@ struct FnD {
     name: String,
     params: Vec<T>,
     ret: T,
+    /// number of type parameters (0 = monomorphic); parameter i is `Param(i)`
+    tparams: usize,
+    /// type parameters carrying a `Show` bound
+    bounded: Vec<usize>,
 }
 
 pub struct Gen<'a> {
@@ -58,6 +87,14 @@ pub struct Gen<'a> {
     enums: Vec<EnumD>,
     fns: Vec<FnD>,
     show_impls: Vec<T>,
+    /// type parameters with a `Show` bound while the body of a generic function is generated
+    cur_bounded: Vec<usize>,
+    /// C03: inject exactly one type error at the `at`-th site of kind `kind`
+    pub inject: Option<(&'static str, usize)>,
+    pub site_count: BTreeMap<&'static str, usize>,
+    pub injected: Option<String>,
+    /// the next `block` is the body of a top-level function (its tail must have the declared result type)
+    top_block: bool,
     uid: usize,
     pub feats: BTreeMap<&'static str, usize>,
 }
@@ -66,10 +103,29 @@ type Scope = Vec<(String, T)>;
 
 impl<'a> Gen<'a> {
     pub fn new(rng: &'a mut Rng, cfg: Cfg) -> Self {
-        Gen { rng, cfg, structs: vec![], enums: vec![], fns: vec![], show_impls: vec![], uid: 0, feats: BTreeMap::new() }
+        Gen { rng, cfg, structs: vec![], enums: vec![], fns: vec![], show_impls: vec![], cur_bounded: vec![], inject: None, site_count: BTreeMap::new(), injected: None, top_block: false, uid: 0, feats: BTreeMap::new() }
     }
     fn feat(&mut self, f: &'static str) {
         *self.feats.entry(f).or_default() += 1;
+    }
+    /// a place where the context forces the type of what is written there; true = write the error here
+    fn hit(&mut self, kind: &'static str) -> bool {
+        let c = self.site_count.entry(kind).or_default();
+        let idx = *c;
+        *c += 1;
+        if self.injected.is_none() && self.inject == Some((kind, idx)) {
+            self.injected = Some(format!("{}@{}", kind, idx));
+            if std::env::var("GV_DEBUG_HIT").is_ok() {
+                eprintln!("{}", std::backtrace::Backtrace::force_capture());
+            }
+            true
+        } else {
+            false
+        }
+    }
+    /// a literal whose type is certainly not `t`
+    fn wrong_value(t: &T) -> String {
+        if *t == T::Bool { "\"w\"".into() } else { "true".into() }
     }
     fn fresh(&mut self, p: &str) -> String {
         self.uid += 1;
@@ -93,6 +149,10 @@ impl<'a> Gen<'a> {
             T::Vec(t) => format!("Vec[{}]", self.ty_text(t)),
             T::Ref(t) => format!("Ref[{}]", self.ty_text(t)),
             T::Fn(ps, r) => format!("({}) -> {}", ps.iter().map(|t| self.ty_text(t)).collect::<Vec<_>>().join(", "), self.ty_text(r)),
+            T::Bx(t) => format!("Bx[{}]", self.ty_text(t)),
+            T::Pr(a, b) => format!("Pr[{}, {}]", self.ty_text(a), self.ty_text(b)),
+            T::Lst(t) => format!("Lst[{}]", self.ty_text(t)),
+            T::Param(i) => ["A", "B", "C"][*i].to_string(),
         }
     }
     fn base_ty(&mut self) -> T {
@@ -107,6 +167,9 @@ impl<'a> Gen<'a> {
         }
     }
     fn data_ty(&mut self, depth: usize) -> T {
+        if self.cfg.rich_generics {
+            return self.rich_ty(depth);
+        }
         if depth == 0 {
             return self.base_ty();
         }
@@ -173,13 +236,23 @@ impl<'a> Gen<'a> {
             return self.leaf(t, scope, pre);
         }
         let d = depth - 1;
+        if self.cfg.src_forms && self.rng.chance(1, 4) {
+            if let Some(e) = self.src_form(t, scope, d, pre) {
+                return e;
+            }
+        }
+        if self.cfg.rich_generics && self.rng.chance(2, 5) {
+            if let Some(e) = self.generic_call(t, scope, d, pre) {
+                return e;
+            }
+        }
         // forms available at every type
         match self.rng.below(12) {
             0 => {
                 self.feat("if");
-                let c = self.expr(&T::Bool, scope, d, pre);
+                let c = if self.hit("cond-type") { "7".to_string() } else { self.expr(&T::Bool, scope, d, pre) };
                 let a = self.block(t, scope, d);
-                let b = self.block(t, scope, d);
+                let b = if self.hit("branch-type") { format!("{{ {} }}", Self::wrong_value(t)) } else { self.block(t, scope, d) };
                 return format!("if {} {} else {}", c, a, b);
             }
             1 if !self.enums.is_empty() => {
@@ -220,7 +293,7 @@ impl<'a> Gen<'a> {
                 let it = [T::I32, T::U8, T::I8][self.rng.below(3)].clone();
                 let s = self.expr(&it, scope, d, pre);
                 let a = self.arm_body(t, scope, d);
-                let b = self.arm_body(t, scope, d);
+                let b = if self.hit("arm-type") { Self::wrong_value(t) } else { self.arm_body(t, scope, d) };
                 let v = self.fresh("n");
                 let mut sc = scope.clone();
                 sc.push((v.clone(), it.clone()));
@@ -238,17 +311,21 @@ impl<'a> Gen<'a> {
                 return format!("match ({}, {}) {{ (true, false) => {}, (false, _) => {}, _ => {}, }}", s1, s2, a, b, c);
             }
             4 if !self.fns.is_empty() => {
-                let cands: Vec<usize> = self.fns.iter().enumerate().filter(|(_, f)| &f.ret == t).map(|(i, _)| i).collect();
+                let cands: Vec<usize> = self.fns.iter().enumerate().filter(|(_, f)| f.tparams == 0 && &f.ret == t).map(|(i, _)| i).collect();
                 if !cands.is_empty() {
                     self.feat("call");
                     let fi = *self.rng.pick(&cands);
                     let ps = self.fns[fi].params.clone();
                     let name = self.fns[fi].name.clone();
-                    let args: Vec<String> = ps.iter().map(|p| self.expr(p, scope, d, pre)).collect();
+                    let mut args: Vec<String> =
+                        ps.iter().map(|p| if self.hit("arg-type") { Self::wrong_value(p) } else { self.expr(p, scope, d, pre) }).collect();
+                    if self.hit("arity") {
+                        if args.is_empty() || self.rng.chance(1, 2) { args.push("0".into()) } else { args.pop(); }
+                    }
                     return format!("{}({})", name, args.join(", "));
                 }
             }
-            5 if self.cfg.generics => {
+            5 if self.cfg.generics && !self.cfg.rich_generics => {
                 self.feat("generic-call");
                 let c = self.expr(&T::Bool, scope, d, pre);
                 let a = self.expr(t, scope, d, pre);
@@ -263,7 +340,7 @@ impl<'a> Gen<'a> {
                 let mut sc = scope.clone();
                 sc.push((p.clone(), pt.clone()));
                 let body = if self.rng.chance(1, 2) { self.block(t, &sc, d) } else { self.expr_nopre(t, &sc, d) };
-                let f = self.fresh("f");
+                let f = self.fresh("fc");
                 let arg = self.expr(&pt, scope, d, pre);
                 write!(pre, "let {} = |{}: {}| {}; ", f, p, self.ty_text(&pt), body).unwrap();
                 return format!("{}({})", f, arg);
@@ -292,7 +369,7 @@ impl<'a> Gen<'a> {
             9 => {
                 self.feat("array-roundtrip");
                 let a = self.expr(t, scope, d, pre);
-                let b = self.expr(t, scope, d, pre);
+                let b = if self.hit("elem-type") { Self::wrong_value(t) } else { self.expr(t, scope, d, pre) };
                 let arr = self.fresh("ar");
                 write!(pre, "let {} = [{}, {}]; ", arr, a, b).unwrap();
                 let i = self.rng.below(2);
@@ -316,6 +393,194 @@ impl<'a> Gen<'a> {
             _ => {}
         }
         self.typed_expr(t, scope, d, pre)
+    }
+
+    fn shuffle(&mut self, xs: &mut Vec<usize>) {
+        for i in (1..xs.len()).rev() {
+            let j = self.rng.below(i + 1);
+            xs.swap(i, j);
+        }
+    }
+
+    /// a literal pattern of type `t` (integers carry their suffix half of the time where one exists)
+    fn lit_pat(&mut self, t: &T) -> Option<String> {
+        let n = self.rng.below(4);
+        Some(match t {
+            T::I32 => if self.rng.chance(1, 3) { format!("{}i32", n) } else { format!("{}", [0, 1, 2, 7, 1000003][self.rng.below(5)]) },
+            T::I8 => format!("{}i8", [0, 1, 5, 127][n]),
+            T::U8 => format!("{}u8", [0, 1, 16, 255][n]),
+            T::I64 => format!("{}i64", [0i64, 3, 4294967296, 9223372036854775807][n]),
+            T::U32 => format!("{}u32", [0u32, 2, 65536, 4294967295][n]),
+            T::Bool => if n < 2 { "true".into() } else { "false".into() },
+            T::Str => format!("\"{}\"", ["a", "bc", "", "goml"][n]),
+            _ => return None,
+        })
+    }
+
+    /// a pattern for struct `si` with its fields written in declaration, reversed or shuffled
+    /// order; sub-patterns are variables (added to `sc`), `_`, shorthand `f0`, or — when
+    /// `refutable` — literals
+    fn struct_pat(&mut self, si: usize, sc: &mut Scope, refutable: bool) -> String {
+        let fts = self.structs[si].fields.clone();
+        let mut order: Vec<usize> = (0..fts.len()).collect();
+        match self.rng.below(3) {
+            0 => self.feat("struct-pat-declared-order"),
+            1 => {
+                order.reverse();
+                self.feat("struct-pat-reversed-order");
+            }
+            _ => {
+                self.shuffle(&mut order);
+                self.feat("struct-pat-shuffled-order");
+            }
+        }
+        let mut parts = Vec::new();
+        for k in order {
+            let ft = fts[k].clone();
+            match self.rng.below(6) {
+                0 => parts.push(format!("f{}: _", k)),
+                1 => {
+                    self.feat("struct-pat-shorthand");
+                    // the shorthand binder shadows an earlier binder of that name (of any type)
+                    sc.retain(|(n, _)| *n != format!("f{}", k));
+                    sc.push((format!("f{}", k), ft));
+                    parts.push(format!("f{}", k));
+                }
+                2 | 3 if refutable => match self.lit_pat(&ft) {
+                    Some(l) => {
+                        self.feat("struct-pat-literal-field");
+                        parts.push(format!("f{}: {}", k, l));
+                    }
+                    None => parts.push(format!("f{}: _", k)),
+                },
+                _ => {
+                    let v = self.fresh("b");
+                    sc.push((v.clone(), ft));
+                    parts.push(format!("f{}: {}", k, v));
+                }
+            }
+        }
+        format!("S{} {{ {} }}", si, parts.join(", "))
+    }
+
+    /// surface forms whose meaning the front end decides (Cfg::src_forms)
+    fn src_form(&mut self, t: &T, scope: &Scope, d: usize, pre: &mut String) -> Option<String> {
+        match self.rng.below(7) {
+            0 | 1 => {
+                // match on a struct: refutable arms with literal fields, then an irrefutable one
+                self.feat("match-struct");
+                let si = self.rng.below(self.structs.len());
+                // (a struct literal cannot stand in scrutinee position: bind it first)
+                let s = self.fresh("ms");
+                let e = self.expr(&T::Struct(si), scope, d, pre);
+                write!(pre, "let {} = {}; ", s, e).unwrap();
+                let mut arms = String::new();
+                for _ in 0..self.rng.below(3) {
+                    let mut sc = scope.clone();
+                    let p = self.struct_pat(si, &mut sc, true);
+                    let body = self.arm_body(t, &sc, d);
+                    write!(arms, "{} => {}, ", p, body).unwrap();
+                }
+                let mut sc = scope.clone();
+                let p = if self.rng.chance(1, 3) { "_".to_string() } else { self.struct_pat(si, &mut sc, false) };
+                let body = self.arm_body(t, &sc, d);
+                write!(arms, "{} => {}, ", p, body).unwrap();
+                Some(format!("match {} {{ {}}}", s, arms))
+            }
+            2 => {
+                // struct inside an enum inside a tuple
+                self.feat("match-nested-struct-enum-tuple");
+                let k = self.expr(&T::I32, scope, d, pre);
+                let scrut_enum = match self.rng.below(4) {
+                    0 => "EN::NB".to_string(),
+                    1 => format!("EN::NC({})", self.expr(&T::I32, scope, d, pre)),
+                    _ => {
+                        let sv = self.expr(&T::Struct(0), scope, d, pre);
+                        let n = self.expr(&T::I32, scope, d, pre);
+                        format!("EN::NA({}, {})", sv, n)
+                    }
+                };
+                let mut arms = String::new();
+                {
+                    let mut sc = scope.clone();
+                    let p = self.struct_pat(0, &mut sc, true);
+                    let lit = self.lit_pat(&T::I32).unwrap();
+                    let body = self.arm_body(t, &sc, d);
+                    write!(arms, "(EN::NA({}, _), {}) => {}, ", p, lit, body).unwrap();
+                }
+                {
+                    let mut sc = scope.clone();
+                    let p = self.struct_pat(0, &mut sc, false);
+                    let v = self.fresh("n");
+                    sc.push((v.clone(), T::I32));
+                    let body = self.arm_body(t, &sc, d);
+                    write!(arms, "(EN::NA({}, {}), _) => {}, ", p, v, body).unwrap();
+                }
+                {
+                    let v = self.fresh("n");
+                    let mut sc = scope.clone();
+                    sc.push((v.clone(), T::I32));
+                    let body = self.arm_body(t, &sc, d);
+                    write!(arms, "(EN::NC(7), {}) => {}, ", v, body).unwrap();
+                }
+                let body = self.arm_body(t, scope, d);
+                write!(arms, "_ => {}, ", body).unwrap();
+                // (the parser takes no struct literal anywhere inside a scrutinee: bind it first)
+                let sv = self.fresh("ms");
+                write!(pre, "let {} = ({}, {}); ", sv, scrut_enum, k).unwrap();
+                Some(format!("match {} {{ {}}}", sv, arms))
+            }
+            3 => {
+                // string / wide-integer literal patterns
+                let st = [T::Str, T::I64, T::U32, T::I32, T::Bool][self.rng.below(5)].clone();
+                self.feat(if st == T::Str { "match-string-literal" } else { "match-literal" });
+                let s = self.expr(&st, scope, d, pre);
+                let mut arms = String::new();
+                for _ in 0..1 + self.rng.below(3) {
+                    let l = self.lit_pat(&st).unwrap();
+                    let body = self.arm_body(t, scope, d);
+                    write!(arms, "{} => {}, ", l, body).unwrap();
+                }
+                let v = self.fresh("n");
+                let mut sc = scope.clone();
+                sc.push((v.clone(), st.clone()));
+                let body = self.arm_body(t, &sc, d);
+                write!(arms, "{} => {}, ", v, body).unwrap();
+                Some(format!("match {} {{ {}}}", s, arms))
+            }
+            4 if *t == T::I32 => {
+                // a local (let / closure parameter / pattern variable) spelled like a function
+                self.feat("local-shadows-function");
+                let name = ["fun0", "fun1", "fun2", "main", "pick", "show_twice", "string_len"][self.rng.below(7)];
+                let a = self.int_lit(&T::I32);
+                let b = self.int_lit(&T::I32);
+                Some(match self.rng.below(3) {
+                    0 => format!("if true {{ let {n} = {a}; ({n} + {b}) }} else {{ {b} }}", n = name, a = a, b = b),
+                    1 => {
+                        let c = self.fresh("fc");
+                        write!(pre, "let {c} = |{n}: int32| ({n} * {b}); ", c = c, n = name, b = b).unwrap();
+                        format!("{}({})", c, a)
+                    }
+                    _ => format!("match ({a}, {b}) {{ ({n}, _) => ({n} - 1), }}", a = a, b = b, n = name),
+                })
+            }
+            5 if *t == T::I32 && self.cfg.traits => {
+                // the three call forms of a method on one receiver; the inherent and the trait method
+                // share their name and differ in what they compute
+                self.feat("method-three-forms");
+                let rv = self.fresh("rv");
+                let e = self.expr(&T::Struct(0), scope, d, pre);
+                write!(pre, "let {}: S0 = {}; ", rv, e).unwrap();
+                let k = self.int_lit(&T::I32);
+                Some(format!("((({rv}.tag({k}) * 3) + (S0::tag({rv}, {k}) * 5)) + (Tagged::tag({rv}, {k}) + Tagged::other({rv})))", rv = rv, k = k))
+            }
+            6 if *t == T::I32 && self.cfg.traits && self.cfg.generics => {
+                self.feat("method-via-bound");
+                let e = self.expr(&T::Enum(0), scope, d, pre);
+                Some(format!("tag_via_bound({})", e))
+            }
+            _ => None,
+        }
     }
 
     /// a pattern of type `t` with constructor nesting ≤ `depth`; its variables are added to `sc`
@@ -385,12 +650,20 @@ impl<'a> Gen<'a> {
     /// statements in front would change what is evaluated, e.g. the right side of `&&`)
     fn pure_expr(&mut self, t: &T, scope: &Scope, depth: usize) -> String {
         let mut pre = String::new();
+        // what is generated here may be thrown away: no injection site inside
+        let saved = (self.inject.take(), self.site_count.clone());
         let e = self.expr(t, scope, depth, &mut pre);
+        let restore = |g: &mut Self, saved: (Option<(&'static str, usize)>, BTreeMap<&'static str, usize>)| {
+            g.inject = saved.0;
+            g.site_count = saved.1;
+        };
         if pre.is_empty() {
+            restore(self, saved);
             return e;
         }
         let mut pre2 = String::new();
         let l = self.leaf(t, scope, &mut pre2);
+        restore(self, saved);
         if pre2.is_empty() { l } else { "true".into() }
     }
 
@@ -413,18 +686,25 @@ impl<'a> Gen<'a> {
                     return format!("vec_len({})", v);
                 }
                 let a = self.expr(t, scope, d, pre);
+                // `b` is not used by every operator below: no injection site inside it
+                let saved = (self.inject.take(), self.site_count.clone());
                 let b = self.expr(t, scope, d, pre);
+                self.inject = saved.0;
+                self.site_count = saved.1;
                 match self.rng.below(5) {
                     0 => {
                         self.feat("arith-add");
+                        let b = if self.hit("operand-type") { "true".to_string() } else { b };
                         format!("({} + {})", a, b)
                     }
                     1 => {
                         self.feat("arith-sub");
+                        let b = if self.hit("operand-type") { "true".to_string() } else { b };
                         format!("({} - {})", a, b)
                     }
                     2 => {
                         self.feat("arith-mul");
+                        let b = if self.hit("operand-type") { "true".to_string() } else { b };
                         format!("({} * {})", a, b)
                     }
                     3 => {
@@ -479,6 +759,16 @@ impl<'a> Gen<'a> {
                 }
                 _ => self.leaf(t, scope, pre),
             },
+            T::Str if !self.cur_bounded.is_empty() && self.rng.chance(1, 2) && self.bounded_var(scope).is_some() => {
+                self.feat("bounded-trait-call");
+                let v = self.bounded_var(scope).unwrap();
+                match self.rng.below(3) {
+                    0 => format!("Show::show({})", v),
+                    1 => format!("show_twice({})", v),
+                    _ if v.starts_with('y') => format!("{}.show()", v),
+                    _ => format!("Show::show({})", v),
+                }
+            }
             T::Str => match self.rng.below(5) {
                 0 => {
                     self.feat("str-concat");
@@ -490,13 +780,13 @@ impl<'a> Gen<'a> {
                     self.feat("to_string");
                     let it = self.base_ty();
                     let it = if it == T::Str { T::I32 } else { it };
-                    let a = self.expr(&it, scope, d, pre);
+                    let a = if self.hit("arg-type") { Self::wrong_value(&it) } else { self.expr(&it, scope, d, pre) };
                     format!("{}({})", Self::to_string_fn(&it), a)
                 }
                 3 if self.cfg.traits && !self.show_impls.is_empty() => {
                     self.feat("trait-call");
                     let st = self.rng.pick(&self.show_impls.clone()).clone();
-                    let a = self.expr(&st, scope, d, pre);
+                    let a = if self.hit("annot-type") { Self::wrong_value(&st) } else { self.expr(&st, scope, d, pre) };
                     let tv = self.fresh("sv");
                     write!(pre, "let {}: {} = {}; ", tv, self.ty_text(&st), a).unwrap();
                     match self.rng.below(4) {
@@ -508,7 +798,6 @@ impl<'a> Gen<'a> {
                             write!(pre, "let {}: dyn Show = {}; ", v, tv).unwrap();
                             format!("Show::show({})", v)
                         }
-                        _ if matches!(st, T::Struct(_) | T::Enum(_)) => format!("{}.show()", tv),
                         _ => format!("Show::show({})", tv),
                     }
                 }
@@ -531,8 +820,39 @@ impl<'a> Gen<'a> {
             T::Struct(i) => {
                 self.feat("struct-lit");
                 let fts = self.structs[*i].fields.clone();
-                let fields: Vec<String> =
-                    fts.iter().enumerate().map(|(k, ft)| format!("f{}: {}", k, self.expr(ft, scope, d, pre))).collect();
+                let mut order: Vec<usize> = (0..fts.len()).collect();
+                if self.cfg.src_forms && fts.len() > 1 && self.rng.chance(1, 2) {
+                    self.feat("struct-lit-out-of-order");
+                    if self.rng.chance(1, 2) { order.reverse() } else { self.shuffle(&mut order) }
+                }
+                let in_order = order.iter().enumerate().all(|(a, b)| a == *b);
+                let mut fields = Vec::new();
+                for k in order {
+                    let mut e = if self.hit("field-type") { Self::wrong_value(&fts[k]) } else { self.expr(&fts[k], scope, d, pre) };
+                    let unknown = self.hit("unknown-field");
+                    if !in_order && !self.cfg.lit_field_effects {
+                        // main stream: the initialisers are evaluated by `let`s in WRITTEN order and the
+                        // literal only mentions variables (the order in which a literal's own
+                        // initialisers run is the separate `lit_field_effects` stream)
+                        let tv = self.fresh("li");
+                        write!(pre, "let {} = {}; ", tv, e).unwrap();
+                        e = tv;
+                    } else if !in_order {
+                        // every initialiser announces itself when it runs
+                        self.feat("struct-lit-out-of-order-effectful");
+                        e = format!("trace(\"f{}\", {})", k, e);
+                    }
+                    // shorthand `S { f0 }` when a variable of that name and type is in scope
+                    // (`S { f0 }` with a single field is read as a block by the parser: needs two fields)
+                    if unknown {
+                        fields.push(format!("zz{}: {}", k, e));
+                    } else if self.cfg.src_forms && fts.len() > 1 && e == format!("f{}", k) {
+                        self.feat("struct-lit-shorthand");
+                        fields.push(format!("f{}", k));
+                    } else {
+                        fields.push(format!("f{}: {}", k, e));
+                    }
+                }
                 format!("S{} {{ {} }}", i, fields.join(", "))
             }
             T::Enum(i) => {
@@ -570,6 +890,11 @@ impl<'a> Gen<'a> {
                         format!("array_set([{}], {}, {})", items.join(", "), i, v)
                     } else {
                         let name = self.fresh("as");
+                        let mut items = items;
+                        if self.hit("array-length") {
+                            let extra = items[0].clone();
+                            items.push(extra);
+                        }
                         write!(pre, "let {}: {} = array_set([{}], {}, {}); ", name, self.ty_text(t), items.join(", "), i, v).unwrap();
                         name
                     }
@@ -607,6 +932,36 @@ impl<'a> Gen<'a> {
                 let body = self.expr_nopre(r, &sc, d);
                 format!("|{}| {}", names.join(", "), body)
             }
+            T::Bx(inner) => {
+                self.feat("generic-struct");
+                let a = self.expr(inner, scope, d, pre);
+                if self.rng.chance(1, 2) { format!("Bx {{ v: {} }}", a) } else { format!("mkbx({})", a) }
+            }
+            T::Pr(x, y) => {
+                self.feat("generic-struct2");
+                let a = self.expr(x, scope, d, pre);
+                let b = self.expr(y, scope, d, pre);
+                match self.rng.below(3) {
+                    0 => format!("mkpr({}, {})", a, b),
+                    1 => format!("Pr::new({}, {})", a, b),
+                    _ => format!("Pr {{ a: {}, b: {} }}", a, b),
+                }
+            }
+            T::Lst(inner) => {
+                self.feat("generic-rec-enum");
+                let nil = self.fresh("nl");
+                write!(pre, "let {}: {} = Lst::Nil; ", nil, self.ty_text(t)).unwrap();
+                let mut cur = nil;
+                for _ in 0..self.rng.below(3) {
+                    let a = self.expr(inner, scope, d, pre);
+                    cur = if self.rng.chance(1, 2) { format!("Lst::Cons({}, {})", a, cur) } else { format!("lcons({}, {})", a, cur) };
+                }
+                cur
+            }
+            T::Param(_) => {
+                let vars = Self::vars_of(scope, t);
+                (*self.rng.pick(&vars)).clone()
+            }
             _ => self.leaf(t, scope, pre),
         }
     }
@@ -623,6 +978,7 @@ impl<'a> Gen<'a> {
 
     /// `{ stmts; tail }` of type `t`
     fn block(&mut self, t: &T, scope: &Scope, depth: usize) -> String {
+        let is_top = std::mem::replace(&mut self.top_block, false);
         let mut sc = scope.clone();
         let mut s = String::from("{ ");
         let n = self.rng.below(3);
@@ -630,7 +986,7 @@ impl<'a> Gen<'a> {
             self.stmt(&mut sc, depth, &mut s);
         }
         let mut pre = String::new();
-        let tail = self.expr(t, &sc, depth, &mut pre);
+        let tail = if is_top && self.hit("ret-type") { Self::wrong_value(t) } else { self.expr(t, &sc, depth, &mut pre) };
         write!(s, "{}{} }}", pre, tail).unwrap();
         s
     }
@@ -675,6 +1031,14 @@ impl<'a> Gen<'a> {
                     }
                     write!(s, "let ({}) = {}; ", pats.join(", "), name).unwrap();
                 }
+            }
+            7 if self.cfg.src_forms => {
+                self.feat("let-struct-pattern");
+                let si = self.rng.below(self.structs.len());
+                let mut pre = String::new();
+                let e = self.expr(&T::Struct(si), sc, depth.min(1), &mut pre);
+                let p = self.struct_pat(si, sc, false);
+                write!(s, "{}let {} = {}; ", pre, p, e).unwrap();
             }
             5 | 6 if self.cfg.traits => {
                 // an effectful trait method called for effect in every call form and statement position
@@ -731,6 +1095,516 @@ impl<'a> Gen<'a> {
         }
     }
 
+
+    // ------------------------------------------------------------------ rich generics (C07)
+
+    /// a concrete type for the rich-generics stream: every type constructor, nested
+    fn rich_ty(&mut self, depth: usize) -> T {
+        if depth == 0 {
+            return if self.rng.chance(1, 10) { T::Unit } else { self.base_ty() };
+        }
+        let d = depth - 1;
+        match self.rng.below(20) {
+            0..=3 => self.base_ty(),
+            4 => {
+                let n = 2 + self.rng.below(2);
+                T::Tuple((0..n).map(|_| self.rich_ty(d)).collect())
+            }
+            5 if !self.structs.is_empty() => T::Struct(self.rng.below(self.structs.len())),
+            6 if !self.enums.is_empty() => T::Enum(self.rng.below(self.enums.len())),
+            7 | 8 => T::Opt(Box::new(self.rich_ty(d))),
+            9 => T::Arr(Box::new(self.rich_ty(d)), 2 + self.rng.below(2)),
+            10 => {
+                if self.cfg.vec_generics { T::Vec(Box::new(self.rich_ty(d))) } else { T::Vec(Box::new(self.base_ty())) }
+            }
+            11 => T::Ref(Box::new(self.rich_ty(d))),
+            12 | 13 => T::Bx(Box::new(self.rich_ty(d))),
+            14 => T::Pr(Box::new(self.rich_ty(d)), Box::new(self.rich_ty(d))),
+            15 | 16 => T::Lst(Box::new(self.rich_ty(d))),
+            17 if self.cfg.closure_flows => T::Fn(vec![self.base_ty()], Box::new(self.rich_ty(d))),
+            18 => T::Unit,
+            _ => self.base_ty(),
+        }
+    }
+
+    /// a type over the type parameters `0..np` (signature of a random generic function)
+    fn pat_ty(&mut self, np: usize, depth: usize) -> T {
+        let p = T::Param(self.rng.below(np));
+        if depth == 0 {
+            return if self.rng.chance(2, 3) { p } else { self.base_ty() };
+        }
+        let d = depth - 1;
+        match self.rng.below(14) {
+            0..=2 => p,
+            3 => self.base_ty(),
+            4 => T::Opt(Box::new(self.pat_ty(np, d))),
+            5 => T::Tuple(vec![self.pat_ty(np, d), self.pat_ty(np, d)]),
+            6 => T::Bx(Box::new(self.pat_ty(np, d))),
+            7 => T::Lst(Box::new(self.pat_ty(np, d))),
+            8 => T::Ref(Box::new(self.pat_ty(np, d))),
+            9 => T::Arr(Box::new(self.pat_ty(np, d)), 2),
+            10 => T::Pr(Box::new(self.pat_ty(np, d)), Box::new(self.pat_ty(np, d))),
+            11 if self.cfg.vec_generics => T::Vec(Box::new(self.pat_ty(np, d))),
+            12 if self.cfg.closure_flows => T::Fn(vec![self.pat_ty(np, 0)], Box::new(self.pat_ty(np, 0))),
+            _ => p,
+        }
+    }
+
+    fn match_ty(p: &T, t: &T, b: &mut Vec<Option<T>>) -> bool {
+        match (p, t) {
+            (T::Param(i), _) => match &b[*i] {
+                Some(x) => x == t,
+                None => {
+                    b[*i] = Some(t.clone());
+                    true
+                }
+            },
+            (T::Tuple(ps), T::Tuple(ts)) => ps.len() == ts.len() && ps.iter().zip(ts.iter()).all(|(p, t)| Self::match_ty(p, t, b)),
+            (T::Opt(p), T::Opt(t)) | (T::Bx(p), T::Bx(t)) | (T::Lst(p), T::Lst(t)) | (T::Vec(p), T::Vec(t)) | (T::Ref(p), T::Ref(t)) => {
+                Self::match_ty(p, t, b)
+            }
+            (T::Arr(p, n), T::Arr(t, m)) => n == m && Self::match_ty(p, t, b),
+            (T::Pr(p1, p2), T::Pr(t1, t2)) => Self::match_ty(p1, t1, b) && Self::match_ty(p2, t2, b),
+            (T::Fn(ps, pr), T::Fn(ts, tr)) => {
+                ps.len() == ts.len() && ps.iter().zip(ts.iter()).all(|(p, t)| Self::match_ty(p, t, b)) && Self::match_ty(pr, tr, b)
+            }
+            _ => p == t,
+        }
+    }
+
+    fn subst_ty(p: &T, b: &[T]) -> T {
+        match p {
+            T::Param(i) => b[*i].clone(),
+            T::Tuple(ps) => T::Tuple(ps.iter().map(|p| Self::subst_ty(p, b)).collect()),
+            T::Opt(p) => T::Opt(Box::new(Self::subst_ty(p, b))),
+            T::Bx(p) => T::Bx(Box::new(Self::subst_ty(p, b))),
+            T::Lst(p) => T::Lst(Box::new(Self::subst_ty(p, b))),
+            T::Vec(p) => T::Vec(Box::new(Self::subst_ty(p, b))),
+            T::Ref(p) => T::Ref(Box::new(Self::subst_ty(p, b))),
+            T::Arr(p, n) => T::Arr(Box::new(Self::subst_ty(p, b)), *n),
+            T::Pr(x, y) => T::Pr(Box::new(Self::subst_ty(x, b)), Box::new(Self::subst_ty(y, b))),
+            T::Fn(ps, r) => T::Fn(ps.iter().map(|p| Self::subst_ty(p, b)).collect(), Box::new(Self::subst_ty(r, b))),
+            t => t.clone(),
+        }
+    }
+
+    fn is_showable(&self, t: &T) -> bool {
+        self.show_impls.contains(t) || matches!(t, T::Param(i) if self.cur_bounded.contains(i))
+    }
+
+    fn showable_ty(&mut self) -> T {
+        let v = self.show_impls.clone();
+        self.rng.pick(&v).clone()
+    }
+
+    fn bounded_var(&self, scope: &Scope) -> Option<String> {
+        scope.iter().rev().find(|(_, t)| matches!(t, T::Param(i) if self.cur_bounded.contains(i))).map(|(n, _)| n.clone())
+    }
+
+    /// a call of a generic function / method whose result has type `t`
+    fn generic_call(&mut self, t: &T, scope: &Scope, d: usize, pre: &mut String) -> Option<String> {
+        // calls of the random generic functions declared so far
+        if !self.fns.is_empty() && self.rng.chance(1, 3) {
+            let mut cands = Vec::new();
+            for (i, f) in self.fns.iter().enumerate() {
+                if f.tparams == 0 {
+                    continue;
+                }
+                let mut b = vec![None; f.tparams];
+                if Self::match_ty(&f.ret, t, &mut b) {
+                    cands.push((i, b));
+                }
+            }
+            if !cands.is_empty() {
+                let (fi, b) = self.rng.pick(&cands).clone();
+                let bounded = self.fns[fi].bounded.clone();
+                let mut bind = Vec::new();
+                let mut ok = true;
+                for (k, x) in b.into_iter().enumerate() {
+                    let needs_show = bounded.contains(&k);
+                    match x {
+                        Some(ty) => {
+                            if needs_show && !self.is_showable(&ty) {
+                                ok = false;
+                            }
+                            bind.push(ty);
+                        }
+                        None => bind.push(if needs_show { self.showable_ty() } else { self.rich_ty(1) }),
+                    }
+                }
+                if ok {
+                    self.feat("generic-call-random-fn");
+                    let ps = self.fns[fi].params.clone();
+                    let name = self.fns[fi].name.clone();
+                    let args: Vec<String> = ps.iter().map(|p| self.expr(&Self::subst_ty(p, &bind), scope, d, pre)).collect();
+                    return Some(format!("{}({})", name, args.join(", ")));
+                }
+            }
+        }
+        // type-specific library functions
+        if self.rng.chance(1, 2) {
+            match t {
+                T::Tuple(ts) if ts.len() == 2 => {
+                    if ts[0] == ts[1] && self.rng.chance(1, 2) {
+                        self.feat("g-dup");
+                        let a = self.expr(&ts[0], scope, d, pre);
+                        return Some(format!("dup({})", a));
+                    }
+                    self.feat("g-swp");
+                    let a = self.expr(&ts[1], scope, d, pre);
+                    let b = self.expr(&ts[0], scope, d, pre);
+                    return Some(format!("swp(({}, {}))", a, b));
+                }
+                T::Bx(u) => {
+                    if let T::Bx(w) = &**u {
+                        self.feat("g-nested-struct");
+                        let a = self.expr(w, scope, d, pre);
+                        return Some(format!("bxbx({})", a));
+                    }
+                    self.feat("g-method-set");
+                    let other = self.expr(u, scope, d, pre);
+                    let a = self.expr(u, scope, d, pre);
+                    let v = self.fresh("bx");
+                    write!(pre, "let {}: {} = mkbx({}); ", v, self.ty_text(t), other).unwrap();
+                    return Some(format!("{}.set({})", v, a));
+                }
+                T::Pr(x, y) => {
+                    self.feat("g-method-swap");
+                    let a = self.expr(y, scope, d, pre);
+                    let b = self.expr(x, scope, d, pre);
+                    let v = self.fresh("pr");
+                    write!(pre, "let {}: {} = mkpr({}, {}); ", v, self.ty_text(&T::Pr(y.clone(), x.clone())), a, b).unwrap();
+                    return Some(format!("{}.swap()", v));
+                }
+                T::Opt(u) => {
+                    if let T::Opt(w) = &**u {
+                        if self.rng.chance(1, 2) {
+                            self.feat("g-nested-enum");
+                            let a = self.expr(w, scope, d, pre);
+                            return Some(format!("nest({})", a));
+                        }
+                    }
+                    self.feat("g-opt-map");
+                    let w = self.rich_ty(1);
+                    let o = self.expr(&T::Opt(Box::new(w.clone())), scope, d, pre);
+                    let z = self.fresh("z");
+                    let mut sc = scope.clone();
+                    sc.push((z.clone(), w.clone()));
+                    let body = self.expr_nopre(u, &sc, d);
+                    return Some(format!("opt_map({}, |{}: {}| {})", o, z, self.ty_text(&w), body));
+                }
+                T::Lst(u) => {
+                    self.feat("g-lcons");
+                    let a = self.expr(u, scope, d, pre);
+                    let l = self.expr(t, scope, d, pre);
+                    return Some(format!("lcons({}, {})", a, l));
+                }
+                T::Arr(u, 2) => {
+                    self.feat("g-arrswap");
+                    let a = self.expr(u, scope, d, pre);
+                    let b = self.expr(u, scope, d, pre);
+                    return Some(format!("arrswap([{}, {}])", a, b));
+                }
+                T::Vec(u) if self.cfg.vec_generics => {
+                    self.feat("g-vsingle");
+                    let a = self.expr(u, scope, d, pre);
+                    return Some(format!("vsingle({})", a));
+                }
+                T::I32 => {
+                    if self.cfg.vec_generics && self.rng.chance(1, 2) {
+                        self.feat("g-vlen");
+                        let u = self.rich_ty(1);
+                        let v = self.expr(&T::Vec(Box::new(u)), scope, d, pre);
+                        return Some(format!("vlen2({})", v));
+                    }
+                    self.feat("g-llen");
+                    let u = self.rich_ty(1);
+                    let l = self.expr(&T::Lst(Box::new(u)), scope, d, pre);
+                    return Some(format!("llen({})", l));
+                }
+                T::Str if self.cfg.traits => {
+                    let st = if !self.cur_bounded.is_empty() && self.rng.chance(1, 2) {
+                        T::Param(*self.rng.pick(&self.cur_bounded.clone()))
+                    } else {
+                        self.showable_ty()
+                    };
+                    if matches!(st, T::Param(_)) && Self::vars_of(scope, &st).is_empty() {
+                        return None;
+                    }
+                    let a = self.expr(&st, scope, d, pre);
+                    let tv = self.fresh("sv");
+                    write!(pre, "let {}: {} = {}; ", tv, self.ty_text(&st), a).unwrap();
+                    return Some(match self.rng.below(5) {
+                        0 => {
+                            self.feat("g-show-twice");
+                            format!("show_twice({})", tv)
+                        }
+                        1 => {
+                            self.feat("g-show-pair");
+                            let st2 = self.showable_ty();
+                            let b = self.expr(&st2, scope, d, pre);
+                            format!("show_pair({}, {})", tv, b)
+                        }
+                        2 => {
+                            self.feat("g-show-opt");
+                            if self.rng.chance(1, 3) {
+                                let o = self.fresh("o");
+                                write!(pre, "let {}: Opt[{}] = Opt::Non; ", o, self.ty_text(&st)).unwrap();
+                                format!("show_opt({})", o)
+                            } else {
+                                format!("show_opt(Opt::Som({}))", tv)
+                            }
+                        }
+                        3 => {
+                            self.feat("g-show-pick");
+                            let c = self.expr(&T::Bool, scope, d, pre);
+                            format!("show_pick({}, {}, {})", c, tv, tv)
+                        }
+                        _ => {
+                            self.feat("g-show-lst");
+                            let nl = self.fresh("nl");
+                            write!(pre, "let {}: Lst[{}] = Lst::Nil; ", nl, self.ty_text(&st)).unwrap();
+                            format!("show_lst(Lst::Cons({}, lcons({}, {})))", tv, tv, nl)
+                        }
+                    });
+                }
+                _ => {}
+            }
+        }
+        if self.cfg.dyn_generics && self.cfg.traits && self.rng.chance(1, 4) {
+            // a generic function with a `dyn Show` parameter / a type parameter instantiated at `dyn Show`
+            // (Sem has no type key for an instance of a generic type behind `dyn`: monomorphic impls only)
+            let st = self.showable_ty();
+            let st = if matches!(st, T::Param(_) | T::Bx(_) | T::Opt(_)) { T::I32 } else { st };
+            let a = self.expr(&st, scope, d, pre);
+            let dv = self.fresh("dy");
+            let tv = self.fresh("sv");
+            write!(pre, "let {}: {} = {}; let {}: dyn Show = {}; ", tv, self.ty_text(&st), a, dv, tv).unwrap();
+            let e = self.expr(t, scope, d, pre);
+            return Some(if self.rng.chance(1, 2) {
+                self.feat("g-dyn-param");
+                format!("lab({}, {})", dv, e)
+            } else {
+                self.feat("g-dyn-instance");
+                format!("konst({}, {})", e, dv)
+            });
+        }
+        // functions polymorphic in the result type
+        let other = self.rich_ty(1);
+        let k = self.rng.below(if self.cfg.vec_generics { 17 } else { 16 });
+        Some(match k {
+            0 => {
+                self.feat("g-idg");
+                let a = self.expr(t, scope, d, pre);
+                format!("idg({})", a)
+            }
+            1 => {
+                self.feat("g-pick");
+                let c = self.expr(&T::Bool, scope, d, pre);
+                let a = self.expr(t, scope, d, pre);
+                let b = self.expr(t, scope, d, pre);
+                format!("pick({}, {}, {})", c, a, b)
+            }
+            2 => {
+                self.feat("g-fst");
+                let a = self.expr(t, scope, d, pre);
+                let b = self.expr(&other, scope, d, pre);
+                format!("fst(({}, {}))", a, b)
+            }
+            3 => {
+                self.feat("g-snd");
+                let a = self.expr(t, scope, d, pre);
+                let b = self.expr(&other, scope, d, pre);
+                format!("snd(({}, {}))", b, a)
+            }
+            4 => {
+                self.feat("g-unbx");
+                let a = self.expr(&T::Bx(Box::new(t.clone())), scope, d, pre);
+                format!("unbx({})", a)
+            }
+            5 => {
+                self.feat("g-method-get");
+                let a = self.expr(&T::Bx(Box::new(t.clone())), scope, d, pre);
+                let v = self.fresh("bx");
+                write!(pre, "let {}: {} = {}; ", v, self.ty_text(&T::Bx(Box::new(t.clone()))), a).unwrap();
+                format!("{}.get()", v)
+            }
+            6 => {
+                self.feat("g-pra");
+                let a = self.expr(&T::Pr(Box::new(t.clone()), Box::new(other.clone())), scope, d, pre);
+                format!("pra({})", a)
+            }
+            7 => {
+                self.feat("g-opt-or");
+                let o = self.expr(&T::Opt(Box::new(t.clone())), scope, d, pre);
+                let a = self.expr(t, scope, d, pre);
+                format!("opt_or({}, {})", o, a)
+            }
+            8 => {
+                self.feat("g-twice");
+                let z = self.fresh("z");
+                let mut sc = scope.clone();
+                sc.push((z.clone(), t.clone()));
+                let body = self.expr_nopre(t, &sc, d);
+                let a = self.expr(t, scope, d, pre);
+                format!("twice(|{}: {}| {}, {})", z, self.ty_text(t), body, a)
+            }
+            9 => {
+                self.feat("g-lhead");
+                let l = self.expr(&T::Lst(Box::new(t.clone())), scope, d, pre);
+                let a = self.expr(t, scope, d, pre);
+                format!("lhead({}, {})", l, a)
+            }
+            10 => {
+                self.feat("g-arr0");
+                let a = self.expr(t, scope, d, pre);
+                let b = self.expr(t, scope, d, pre);
+                format!("arr0([{}, {}])", a, b)
+            }
+            11 => {
+                self.feat("g-rget");
+                let a = self.expr(t, scope, d, pre);
+                format!("rget(ref({}))", a)
+            }
+            12 => {
+                self.feat("g-rput");
+                let a = self.expr(t, scope, d, pre);
+                let b = self.expr(t, scope, d, pre);
+                let r = self.fresh("r");
+                write!(pre, "let {} = ref({}); let _ = rput({}, {}); ", r, a, r, b).unwrap();
+                format!("rget({})", r)
+            }
+            13 => {
+                self.feat("g-unnest");
+                let a = self.expr(t, scope, d, pre);
+                let b = self.expr(t, scope, d, pre);
+                format!("unnest(nest({}), {})", a, b)
+            }
+            14 => {
+                self.feat("g-dup-proj");
+                let a = self.expr(t, scope, d, pre);
+                let v = self.fresh("dp");
+                write!(pre, "let {}: {} = dup({}); ", v, self.ty_text(&T::Tuple(vec![t.clone(), t.clone()])), a).unwrap();
+                format!("{}.{}", v, self.rng.below(2))
+            }
+            15 => {
+                self.feat("g-opt-map-or");
+                let o = self.expr(&T::Opt(Box::new(other.clone())), scope, d, pre);
+                let z = self.fresh("z");
+                let mut sc = scope.clone();
+                sc.push((z.clone(), other.clone()));
+                let body = self.expr_nopre(t, &sc, d);
+                let a = self.expr(t, scope, d, pre);
+                format!("opt_or(opt_map({}, |{}: {}| {}), {})", o, z, self.ty_text(&other), body, a)
+            }
+            _ => {
+                self.feat("g-vfirst");
+                let v = self.expr(&T::Vec(Box::new(t.clone())), scope, d, pre);
+                let a = self.expr(t, scope, d, pre);
+                format!("vfirst({}, {})", v, a)
+            }
+        })
+    }
+
+    fn generic_library(&mut self, src: &mut String) {
+        src.push_str(
+            r#"struct Bx[T] { v: T }
+struct Pr[A, B] { a: A, b: B }
+enum Lst[T] { Nil, Cons(T, Lst[T]) }
+fn idg[T](x: T) -> T { x }
+fn fst[A, B](p: (A, B)) -> A { p.0 }
+fn snd[A, B](p: (A, B)) -> B { p.1 }
+fn swp[A, B](p: (A, B)) -> (B, A) { (p.1, p.0) }
+fn unbx[T](b: Bx[T]) -> T { b.v }
+fn mkbx[T](x: T) -> Bx[T] { Bx { v: x } }
+fn bxbx[T](x: T) -> Bx[Bx[T]] { mkbx(mkbx(x)) }
+fn mkpr[A, B](a: A, b: B) -> Pr[A, B] { Pr { a: a, b: b } }
+fn pra[A, B](p: Pr[A, B]) -> A { p.a }
+fn opt_or[T](o: Opt[T], d: T) -> T { match o { Opt::Som(x) => x, Opt::Non => d } }
+fn opt_map[T, U](o: Opt[T], f: (T) -> U) -> Opt[U] { match o { Opt::Som(x) => Opt::Som(f(x)), Opt::Non => Opt::Non } }
+fn twice[T](f: (T) -> T, x: T) -> T { f(f(x)) }
+fn lcons[T](x: T, l: Lst[T]) -> Lst[T] { Lst::Cons(x, l) }
+fn llen[T](l: Lst[T]) -> int32 { match l { Lst::Nil => 0, Lst::Cons(_, t) => 1 + llen(t) } }
+fn lhead[T](l: Lst[T], d: T) -> T { match l { Lst::Nil => d, Lst::Cons(h, _) => h } }
+fn arr0[T](a: [T; 2]) -> T { array_get(a, 0) }
+fn arrswap[T](a: [T; 2]) -> [T; 2] { [array_get(a, 1), array_get(a, 0)] }
+fn rget[T](r: Ref[T]) -> T { ref_get(r) }
+fn rput[T](r: Ref[T], x: T) -> T { let o = ref_get(r); let _ = ref_set(r, x); o }
+fn dup[T](x: T) -> (T, T) { (idg(x), pick(true, x, x)) }
+fn nest[T](x: T) -> Opt[Opt[T]] { Opt::Som(Opt::Som(x)) }
+fn unnest[T](o: Opt[Opt[T]], d: T) -> T { opt_or(opt_or(o, Opt::Som(d)), d) }
+impl[T] Bx[T] {
+    fn get(self: Bx[T]) -> T { self.v }
+    fn set(self: Bx[T], x: T) -> Bx[T] { Bx { v: x } }
+}
+impl[A, B] Pr[A, B] {
+    fn new(a: A, b: B) -> Pr[A, B] { Pr { a: a, b: b } }
+    fn swap(self: Pr[A, B]) -> Pr[B, A] { Pr { a: self.b, b: self.a } }
+}
+"#,
+        );
+        if self.cfg.vec_generics {
+            src.push_str(
+                r#"fn vsingle[T](x: T) -> Vec[T] { let v: Vec[T] = vec_new(); vec_push(v, x) }
+fn vfirst[T](v: Vec[T], d: T) -> T { if vec_len(v) > 0 { vec_get(v, 0) } else { d } }
+fn vlen2[T](v: Vec[T]) -> int32 { vec_len(v) }
+"#,
+            );
+        }
+        if self.cfg.traits {
+            src.push_str(
+                r#"impl Show for Bx[int32] { fn show(self: Bx[int32]) -> string { "Bx" + int32_to_string(self.v) } }
+impl Show for Opt[bool] { fn show(self: Opt[bool]) -> string { match self { Opt::Som(b) => bool_to_string(b), Opt::Non => "non" } } }
+fn show_pair[A: Show, B: Show](a: A, b: B) -> string { show_twice(a) + Show::show(b) }
+fn show_opt[T: Show](o: Opt[T]) -> string { match o { Opt::Som(x) => { let y: T = x; Show::show(y) }, Opt::Non => "-" } }
+fn show_pick[T: Show](c: bool, a: T, b: T) -> string { let r: T = pick(c, a, b); Show::show(r) }
+fn lab[T](d: dyn Show, x: T) -> T { let _ = string_println(Show::show(d)); x }
+fn konst[A, B](a: A, b: B) -> A { a }
+fn show_lst[T: Show](l: Lst[T]) -> string { match l { Lst::Nil => ".", Lst::Cons(h, t) => { let y: T = h; show_twice(y) + show_lst(t) } } }
+"#,
+            );
+            self.show_impls.push(T::Bx(Box::new(T::I32)));
+            self.show_impls.push(T::Opt(Box::new(T::Bool)));
+        }
+    }
+
+    /// random generic functions `g<i>[A, B…](…) -> …` whose bodies are generated type-directed with the
+    /// type parameters as opaque types
+    fn random_generic_fns(&mut self, src: &mut String) {
+        let n = 1 + self.rng.below(3);
+        for i in 0..n {
+            let np = 1 + self.rng.below(2);
+            let mut bounded = Vec::new();
+            for k in 0..np {
+                if self.cfg.traits && self.rng.chance(1, 3) {
+                    bounded.push(k);
+                }
+            }
+            let mut params: Vec<T> = (0..np).map(T::Param).collect();
+            for _ in 0..self.rng.below(3) {
+                let p = if self.rng.chance(1, 3) { self.base_ty() } else { self.pat_ty(np, 1) };
+                params.push(p);
+            }
+            let ret = self.pat_ty(np, 2);
+            let mut scope: Scope = Vec::new();
+            let mut ptxt = Vec::new();
+            for (k, p) in params.iter().enumerate() {
+                let nm = format!("y{}_{}", i, k);
+                ptxt.push(format!("{}: {}", nm, self.ty_text(p)));
+                scope.push((nm, p.clone()));
+            }
+            let gtxt: Vec<String> =
+                (0..np).map(|k| if bounded.contains(&k) { format!("{}: Show", ["A", "B", "C"][k]) } else { ["A", "B", "C"][k].to_string() }).collect();
+            self.cur_bounded = bounded.clone();
+            let depth = self.cfg.max_depth;
+            let body = self.block(&ret, &scope, depth);
+            self.cur_bounded.clear();
+            writeln!(src, "fn g{}[{}]({}) -> {} {}", i, gtxt.join(", "), ptxt.join(", "), self.ty_text(&ret), body).unwrap();
+            self.feat("random-generic-fn");
+            self.fns.push(FnD { name: format!("g{}", i), params, ret, tparams: np, bounded });
+        }
+    }
+
     /// code that prints a value of type `t` held in variable `v`
     fn show(&mut self, t: &T, v: &str, out: &mut String) {
         match t {
@@ -747,7 +1621,11 @@ impl<'a> Gen<'a> {
                 let fts = self.structs[*i].fields.clone();
                 for (k, ft) in fts.iter().enumerate() {
                     let n = self.fresh("s");
-                    write!(out, "let {} = {}.f{}; ", n, v, k).unwrap();
+                    if self.hit("unknown-field") {
+                        write!(out, "let {} = {}.zz{}; ", n, v, k).unwrap();
+                    } else {
+                        write!(out, "let {} = {}.f{}; ", n, v, k).unwrap();
+                    }
                     self.show(ft, &n, out);
                 }
             }
@@ -793,6 +1671,36 @@ impl<'a> Gen<'a> {
                 write!(out, "let {} = ref_get({}); ", nm, v).unwrap();
                 self.show(e, &nm, out);
             }
+            T::Bx(e) => {
+                let nm = self.fresh("s");
+                if self.rng.chance(1, 2) {
+                    write!(out, "let {} = {}.v; ", nm, v).unwrap();
+                } else {
+                    let tmp = self.fresh("s");
+                    write!(out, "let {}: {} = {}; let {} = {}.get(); ", tmp, self.ty_text(t), v, nm, tmp).unwrap();
+                }
+                self.show(e, &nm, out);
+            }
+            T::Pr(x, y) => {
+                let (n1, n2) = (self.fresh("s"), self.fresh("s"));
+                write!(out, "let {} = {}.a; let {} = {}.b; ", n1, v, n2, v).unwrap();
+                self.show(x, &n1, out);
+                self.show(y, &n2, out);
+            }
+            T::Lst(e) => {
+                write!(out, "let _ = string_println(int32_to_string(llen({}))); ", v).unwrap();
+                let nm = self.fresh("s");
+                let mut body = String::new();
+                self.show(e, &nm, &mut body);
+                write!(out, "let _ = match {} {{ Lst::Cons({}, _) => {{ {}() }}, Lst::Nil => {{ string_println(\"Nil\") }}, }}; ", v, nm, body).unwrap();
+            }
+            T::Fn(ps, r) => {
+                let mut pre = String::new();
+                let args: Vec<String> = ps.iter().map(|p| self.expr(p, &Vec::new(), 0, &mut pre)).collect();
+                let nm = self.fresh("s");
+                write!(out, "{}let {} = {}({}); ", pre, nm, v, args.join(", ")).unwrap();
+                self.show(r, &nm, out);
+            }
             _ => {}
         }
     }
@@ -826,6 +1734,21 @@ impl<'a> Gen<'a> {
             writeln!(src, "enum E{} {{ {} }}", i, txt.join(", ")).unwrap();
             self.enums.push(EnumD { variants });
         }
+        if self.cfg.src_forms {
+            writeln!(src, "enum EN {{ NA(S0, int32), NB, NC(int32) }}").unwrap();
+        }
+        if self.cfg.src_forms && self.cfg.traits {
+            writeln!(src, "impl S0 {{ fn tag(self: S0, k: int32) -> int32 {{ k + 1 }} }}").unwrap();
+            writeln!(src, "trait Tagged {{ fn tag(Self, int32) -> int32; fn other(Self) -> int32; }}").unwrap();
+            writeln!(src, "impl Tagged for S0 {{ fn tag(self: S0, k: int32) -> int32 {{ k + 100 }} fn other(self: S0) -> int32 {{ 7 }} }}").unwrap();
+            writeln!(src, "impl Tagged for E0 {{ fn tag(self: E0, k: int32) -> int32 {{ k + 200 }} fn other(self: E0) -> int32 {{ 8 }} }}").unwrap();
+            if self.cfg.generics {
+                writeln!(src, "fn tag_via_bound[T: Tagged](x: T) -> int32 {{ x.tag(1) + Tagged::other(x) }}").unwrap();
+            }
+        }
+        if self.cfg.lit_field_effects {
+            writeln!(src, "fn trace[T](s: string, v: T) -> T {{ let _ = string_println(s); v }}").unwrap();
+        }
         if self.cfg.generics {
             writeln!(src, "enum Opt[T] {{ Non, Som(T) }}").unwrap();
             writeln!(src, "fn pick[T](c: bool, a: T, b: T) -> T {{ if c {{ a }} else {{ b }} }}").unwrap();
@@ -847,6 +1770,10 @@ impl<'a> Gen<'a> {
             writeln!(src, "impl Poke for S0 {{ fn poke(self: S0) -> unit {{ string_println(\"poke S0\") }} }}").unwrap();
             writeln!(src, "fn poke_via[T: Poke](x: T) -> unit {{ Poke::poke(x) }}").unwrap();
         }
+        if self.cfg.rich_generics {
+            self.generic_library(&mut src);
+            self.random_generic_fns(&mut src);
+        }
         // functions; each may call the earlier ones only
         let nf = 2 + self.rng.below(3);
         for i in 0..nf {
@@ -861,16 +1788,24 @@ impl<'a> Gen<'a> {
                 scope.push((n, p.clone()));
             }
             let depth = self.cfg.max_depth;
+            self.top_block = true;
             let body = self.block(&ret, &scope, depth);
             writeln!(src, "fn fun{}({}) -> {} {}", i, ptxt.join(", "), self.ty_text(&ret), body).unwrap();
-            self.fns.push(FnD { name: format!("fun{}", i), params, ret });
+            self.fns.push(FnD { name: format!("fun{}", i), params, ret, tparams: 0, bounded: vec![] });
         }
         // main: call every function and print what it returns
         let mut body = String::new();
         for i in 0..self.fns.len() {
-            let ps = self.fns[i].params.clone();
-            let ret = self.fns[i].ret.clone();
+            let mut ps = self.fns[i].params.clone();
+            let mut ret = self.fns[i].ret.clone();
             let name = self.fns[i].name.clone();
+            if self.fns[i].tparams > 0 {
+                // call the generic function at concrete type arguments
+                let bounded = self.fns[i].bounded.clone();
+                let bind: Vec<T> = (0..self.fns[i].tparams).map(|k| if bounded.contains(&k) { self.showable_ty() } else { self.rich_ty(2) }).collect();
+                ps = ps.iter().map(|p| Self::subst_ty(p, &bind)).collect();
+                ret = Self::subst_ty(&ret, &bind);
+            }
             let mut pre = String::new();
             let args: Vec<String> = ps.iter().map(|p| self.expr(p, &Vec::new(), 1, &mut pre)).collect();
             let r = self.fresh("res");
@@ -882,8 +1817,600 @@ impl<'a> Gen<'a> {
     }
 }
 
+/// like `gen_program`, with one type error injected at the `at`-th site of `kind` (None = none);
+/// returns the source, the number of sites of each kind seen, and what was injected
+pub fn gen_program_inject(rng: &mut Rng, cfg: Cfg, inject: Option<(&'static str, usize)>) -> (String, BTreeMap<&'static str, usize>, Option<String>) {
+    let mut g = Gen::new(rng, cfg);
+    g.inject = inject;
+    let src = g.program();
+    (src, g.site_count, g.injected)
+}
+
 pub fn gen_program(rng: &mut Rng, cfg: Cfg) -> (String, BTreeMap<&'static str, usize>) {
     let mut g = Gen::new(rng, cfg);
+    let src = g.program();
+    (src, g.feats)
+}
+
+// ------------------------------------------------------------------------------------------
+// C08: closure-centred programs.  Every capture set (params, lets, pattern variables, outer
+// closure params, Ref cells mutated before and after creation), nesting up to `nest`, and one
+// flow of a function value per flag.  Flows whose emitted Go is known to be ill-typed (C02's
+// findings) are only produced when their flag is set, so they cannot mask the main stream.
+
+pub mod flow {
+    // flows the pass rewrites (main stream)
+    pub const ALIAS: u32 = 1 << 0; //            let g = f
+    pub const TUPLE: u32 = 1 << 1; //            let (h, n) = (f, 3)
+    pub const RETURN_EARLIER: u32 = 1 << 2; //   fn mk(..) -> (int32) -> int32 declared before its caller
+    pub const STRUCT_OWN: u32 = 1 << 3; //       one struct type per stored closure
+    pub const TOPFN: u32 = 1 << 4; //            top-level function used as a value
+    pub const TUPLE_RETURN: u32 = 1 << 5; //     fn returning a tuple of closures (corpus 038)
+    pub const MAIN_STREAM: u32 = ALIAS | TUPLE | RETURN_EARLIER | STRUCT_OWN | TOPFN | TUPLE_RETURN;
+    // flows outside the rewriting (one per program, separate stream)
+    pub const ARGUMENT: u32 = 1 << 8; //         apply(f, 1), apply(|x| .., 1)
+    pub const BRANCH_IF: u32 = 1 << 9; //        let h = if c { f } else { g }
+    pub const BRANCH_MATCH: u32 = 1 << 10;
+    pub const ARRAY: u32 = 1 << 11; //           [f, g]
+    pub const RETURN_LATER: u32 = 1 << 12; //    callee declared after the caller
+    pub const STRUCT_SHARED: u32 = 1 << 13; //   two closures stored in the same struct type
+    pub const CURRIED: u32 = 1 << 14; //         |a| |b| a + b
+    pub const REFCELL: u32 = 1 << 15; //         ref(f)
+    pub const CLOSURE_PARAM: u32 = 1 << 16; //   |h: (int32) -> int32, x: int32| h(x)
+    pub const MIXED_TOP: u32 = 1 << 17; //       if c { topfn } else { closure }
+    pub const RETURN_BRANCH: u32 = 1 << 18; //   fn returning if c { clo1 } else { clo2 }
+    pub const GO_STMT: u32 = 1 << 19; //         go closure
+    pub const OTHER: [(u32, &str); 12] = [
+        (ARGUMENT, "argument"),
+        (BRANCH_IF, "branch-if"),
+        (BRANCH_MATCH, "branch-match"),
+        (ARRAY, "array"),
+        (RETURN_LATER, "return-later"),
+        (STRUCT_SHARED, "struct-shared"),
+        (CURRIED, "curried"),
+        (REFCELL, "refcell"),
+        (CLOSURE_PARAM, "closure-param"),
+        (MIXED_TOP, "mixed-top"),
+        (RETURN_BRANCH, "return-branch"),
+        (GO_STMT, "go"),
+    ];
+}
+
+#[derive(Clone, Copy, Debug)]
+pub struct CloCfg {
+    pub flows: u32,
+    /// closure nesting depth (≤ 4)
+    pub nest: usize,
+    /// statements per block
+    pub stmts: usize,
+}
+
+#[derive(Clone, PartialEq, Debug)]
+enum CT {
+    I,
+    R,
+    /// function value of n int32 parameters returning int32
+    F(usize),
+}
+
+#[derive(Clone, Debug)]
+struct CV {
+    name: String,
+    ty: CT,
+}
+
+pub struct CloGen<'a> {
+    rng: &'a mut Rng,
+    cfg: CloCfg,
+    uid: usize,
+    /// declarations placed before `main`
+    before: String,
+    /// declarations placed after `main`
+    after: String,
+    decls: String,
+    pub feats: BTreeMap<&'static str, usize>,
+}
+
+impl<'a> CloGen<'a> {
+    fn feat(&mut self, f: &'static str) {
+        *self.feats.entry(f).or_default() += 1;
+    }
+    fn on(&self, f: u32) -> bool {
+        self.cfg.flows & f != 0
+    }
+    fn fresh(&mut self, p: &str) -> String {
+        self.uid += 1;
+        format!("{}{}", p, self.uid)
+    }
+    fn fty(n: usize) -> String {
+        format!("({}) -> int32", vec!["int32"; n].join(", "))
+    }
+    fn vars<'s>(sc: &'s [CV], t: &CT) -> Vec<&'s CV> {
+        sc.iter().filter(|v| &v.ty == t).collect()
+    }
+    fn fvars(sc: &[CV]) -> Vec<&CV> {
+        sc.iter().filter(|v| matches!(v.ty, CT::F(_))).collect()
+    }
+
+    fn int_expr(&mut self, sc: &[CV], d: usize) -> String {
+        let ints = Self::vars(sc, &CT::I);
+        let refs = Self::vars(sc, &CT::R);
+        let fs = Self::fvars(sc);
+        if d == 0 {
+            return match self.rng.below(4) {
+                0 if !ints.is_empty() => self.rng.pick(&ints).name.clone(),
+                1 if !refs.is_empty() => format!("ref_get({})", self.rng.pick(&refs).name),
+                2 if !ints.is_empty() => self.rng.pick(&ints).name.clone(),
+                _ => format!("{}", self.rng.below(10)),
+            };
+        }
+        match self.rng.below(9) {
+            0 | 1 if !fs.is_empty() => {
+                self.feat("call-through-variable");
+                let f = (*self.rng.pick(&fs)).clone();
+                let CT::F(n) = f.ty else { unreachable!() };
+                let args: Vec<String> = (0..n).map(|_| self.int_expr(sc, d - 1)).collect();
+                format!("{}({})", f.name, args.join(", "))
+            }
+            2 | 3 => {
+                let a = self.int_expr(sc, d - 1);
+                let b = self.int_expr(sc, d - 1);
+                format!("({} {} {})", a, ["+", "*", "-"][self.rng.below(3)], b)
+            }
+            4 => {
+                let a = self.int_expr(sc, d - 1);
+                let b = self.int_expr(sc, d - 1);
+                let t = self.int_expr(sc, d - 1);
+                let e = self.int_expr(sc, d - 1);
+                format!("(if {} < {} {{ {} }} else {{ {} }})", a, b, t, e)
+            }
+            _ => self.int_expr(sc, 0),
+        }
+    }
+
+    /// `|p..| body`; the body may be a block with its own statements (nested closures, mutation)
+    fn closure_lit(&mut self, sc: &[CV], n: usize, nest: usize) -> String {
+        let mut inner: Vec<CV> = sc.to_vec();
+        let mut ps = Vec::new();
+        for _ in 0..n {
+            let p = self.fresh("a");
+            ps.push(format!("{}: int32", p));
+            inner.push(CV { name: p, ty: CT::I });
+        }
+        self.feat(match n {
+            0 => "closure-0-params",
+            1 => "closure-1-param",
+            _ => "closure-2-params",
+        });
+        let body = if nest > 0 && self.rng.chance(2, 3) {
+            let mut s = String::from("{ ");
+            let k = 1 + self.rng.below(self.cfg.stmts.max(1));
+            self.stmts(&mut inner, nest - 1, k, &mut s, false);
+            let e = self.int_expr(&inner, 2);
+            write!(s, "{} }}", e).unwrap();
+            s
+        } else {
+            self.int_expr(&inner, 2)
+        };
+        format!("|{}| {}", ps.join(", "), body)
+    }
+
+    fn print(&mut self, e: &str, out: &mut String) {
+        write!(out, "let _ = string_println(int32_to_string({})); ", e).unwrap();
+    }
+
+    fn call_of(&mut self, f: &str, n: usize, sc: &[CV]) -> String {
+        let args: Vec<String> = (0..n).map(|_| self.int_expr(sc, 1)).collect();
+        format!("{}({})", f, args.join(", "))
+    }
+
+    /// a function value expression of arity 1 that is a variable in scope, else a fresh closure
+    fn some_f1(&mut self, sc: &mut Vec<CV>, nest: usize, out: &mut String) -> String {
+        let c = Self::vars(sc, &CT::F(1));
+        if !c.is_empty() && self.rng.chance(1, 2) {
+            return self.rng.pick(&c).name.clone();
+        }
+        let f = self.fresh("f");
+        let lit = self.closure_lit(sc, 1, nest.min(1));
+        write!(out, "let {} = {}; ", f, lit).unwrap();
+        sc.push(CV { name: f.clone(), ty: CT::F(1) });
+        f
+    }
+
+    fn stmts(&mut self, sc: &mut Vec<CV>, nest: usize, n: usize, out: &mut String, top: bool) {
+        for _ in 0..n {
+            self.stmt(sc, nest, out, top);
+        }
+    }
+
+    fn stmt(&mut self, sc: &mut Vec<CV>, nest: usize, out: &mut String, top: bool) {
+        let k = self.rng.below(16);
+        match k {
+            0 => {
+                self.feat("let-int");
+                let e = self.int_expr(sc, 2);
+                let x = self.fresh("x");
+                write!(out, "let {} = {}; ", x, e).unwrap();
+                sc.push(CV { name: x, ty: CT::I });
+            }
+            1 => {
+                let ints = Self::vars(sc, &CT::I);
+                if !ints.is_empty() {
+                    let v = self.rng.pick(&ints).name.clone();
+                    // rebinding after a closure may have captured the old value
+                    self.feat("shadow-after-capture");
+                    let e = self.int_expr(sc, 1);
+                    write!(out, "let {} = ({} + {}); ", v, v, e).unwrap();
+                }
+            }
+            2 => {
+                self.feat("let-ref");
+                let e = self.int_expr(sc, 1);
+                let r = self.fresh("r");
+                write!(out, "let {} = ref({}); ", r, e).unwrap();
+                sc.push(CV { name: r, ty: CT::R });
+            }
+            3 | 4 => {
+                let refs = Self::vars(sc, &CT::R);
+                if !refs.is_empty() {
+                    self.feat("ref-mutation");
+                    let r = self.rng.pick(&refs).name.clone();
+                    let e = self.int_expr(sc, 2);
+                    write!(out, "let _ = ref_set({}, {}); ", r, e).unwrap();
+                }
+            }
+            5 | 6 | 7 if nest > 0 => {
+                self.feat("let-closure");
+                let n = [1, 1, 1, 0, 2][self.rng.below(5)];
+                let lit = self.closure_lit(sc, n, nest - 1);
+                let f = self.fresh("f");
+                write!(out, "let {} = {}; ", f, lit).unwrap();
+                sc.push(CV { name: f.clone(), ty: CT::F(n) });
+                if self.rng.chance(2, 3) {
+                    let c = self.call_of(&f, n, sc);
+                    self.print(&c, out);
+                }
+            }
+            8 => {
+                let e = self.int_expr(sc, 3);
+                self.print(&e, out);
+            }
+            9 => {
+                // pattern variables as captures
+                self.feat("pattern-vars");
+                let a = self.int_expr(sc, 1);
+                let b = self.int_expr(sc, 1);
+                if self.rng.chance(1, 2) {
+                    let p = self.fresh("p");
+                    let q = self.fresh("q");
+                    write!(out, "let ({}, {}) = ({}, {}); ", p, q, a, b).unwrap();
+                    sc.push(CV { name: p, ty: CT::I });
+                    sc.push(CV { name: q, ty: CT::I });
+                } else {
+                    let p = self.fresh("p");
+                    let q = self.fresh("q");
+                    let m = self.fresh("m");
+                    let mut inner = sc.clone();
+                    inner.push(CV { name: p.clone(), ty: CT::I });
+                    inner.push(CV { name: q.clone(), ty: CT::I });
+                    let mut body = String::from("{ ");
+                    self.stmts(&mut inner, nest, 2, &mut body, false);
+                    let e = self.int_expr(&inner, 2);
+                    write!(body, "{} }}", e).unwrap();
+                    let other = self.int_expr(sc, 1);
+                    write!(out, "let {} = match Pair::Two({}, {}) {{ Pair::Two({}, {}) => {}, Pair::Zero => {} }}; ", m, a, b, p, q, body, other).unwrap();
+                    sc.push(CV { name: m, ty: CT::I });
+                }
+            }
+            10 => {
+                let fs = Self::fvars(sc);
+                if !fs.is_empty() {
+                    // a closure called in a loop (the cell it shares with its creator changes between calls)
+                    self.feat("loop-call");
+                    let f = (*self.rng.pick(&fs)).clone();
+                    let CT::F(n) = f.ty else { unreachable!() };
+                    let i = self.fresh("i");
+                    let c = self.call_of(&f.name, n, sc);
+                    write!(out, "let {i} = ref(0); while ref_get({i}) < 2 {{ let _ = ref_set({i}, ref_get({i}) + 1); let _ = string_println(int32_to_string({c})); () }}; ", i = i, c = c).unwrap();
+                    sc.push(CV { name: i, ty: CT::R });
+                }
+            }
+            11 if self.on(flow::ALIAS) => {
+                let fs = Self::fvars(sc);
+                if !fs.is_empty() {
+                    self.feat("flow:alias");
+                    let f = (*self.rng.pick(&fs)).clone();
+                    let g = self.fresh("g");
+                    write!(out, "let {} = {}; ", g, f.name).unwrap();
+                    sc.push(CV { name: g, ty: f.ty });
+                }
+            }
+            12 if self.on(flow::TUPLE) => {
+                let f = self.some_f1(sc, nest, out);
+                let e = self.int_expr(sc, 1);
+                match self.rng.below(3) {
+                    0 if nest > 0 => {
+                        // a tuple holding a closure is captured by another closure and taken apart inside it
+                        self.feat("flow:tuple-captured-by-closure");
+                        let (t, g, a) = (self.fresh("t"), self.fresh("f"), self.fresh("a"));
+                        let (h, m) = (self.fresh("h"), self.fresh("n"));
+                        write!(out, "let {t} = ({f}, {e}); let {g} = |{a}: int32| {{ let ({h}, {m}) = {t}; {h}({a}) + {m} }}; ", t = t, f = f, e = e, g = g, a = a, h = h, m = m).unwrap();
+                        sc.push(CV { name: g.clone(), ty: CT::F(1) });
+                        let c = self.call_of(&g, 1, sc);
+                        self.print(&c, out);
+                    }
+                    1 if nest > 0 => {
+                        // a closure shadows the closure it captures (same source name)
+                        self.feat("closure-shadows-captured-closure");
+                        let a = self.fresh("a");
+                        let k = self.int_expr(sc, 1);
+                        write!(out, "let {f} = |{a}: int32| {f}({a}) + {k}; ", f = f, a = a, k = k).unwrap();
+                        let c = self.call_of(&f, 1, sc);
+                        self.print(&c, out);
+                    }
+                    _ => {
+                        self.feat("flow:tuple");
+                        let (h, m) = (self.fresh("h"), self.fresh("n"));
+                        write!(out, "let ({}, {}) = ({}, {}); ", h, m, f, e).unwrap();
+                        sc.push(CV { name: h.clone(), ty: CT::F(1) });
+                        sc.push(CV { name: m.clone(), ty: CT::I });
+                        self.print(&format!("{}({})", h, m), out);
+                    }
+                }
+            }
+            13 if self.on(flow::STRUCT_OWN) && top => {
+                self.feat("flow:struct-field");
+                let f = self.some_f1(sc, nest, out);
+                let s = self.fresh("Box");
+                writeln!(self.decls, "struct {} {{ f: (int32) -> int32, k: int32 }}", s).unwrap();
+                let (b, h) = (self.fresh("b"), self.fresh("h"));
+                let e = self.int_expr(sc, 1);
+                write!(out, "let {} = {} {{ f: {}, k: {} }}; let {} = {}.f; ", b, s, f, e, h, b).unwrap();
+                sc.push(CV { name: h.clone(), ty: CT::F(1) });
+                self.print(&format!("{}({}.k)", h, b), out);
+                if nest > 0 && self.rng.chance(1, 2) {
+                    // the struct holding the closure is captured by another closure
+                    self.feat("flow:struct-captured-by-closure");
+                    let (g, a, hh) = (self.fresh("f"), self.fresh("a"), self.fresh("h"));
+                    write!(out, "let {g} = |{a}: int32| {{ let {hh} = {b}.f; {hh}({a} + {b}.k) }}; ", g = g, a = a, hh = hh, b = b).unwrap();
+                    sc.push(CV { name: g.clone(), ty: CT::F(1) });
+                    let c = self.call_of(&g, 1, sc);
+                    self.print(&c, out);
+                }
+            }
+            14 if self.on(flow::TOPFN) && top && self.rng.chance(1, 3) => {
+                // closures created inside a trait method and an inherent method (context names with `#`)
+                self.feat("closure-in-method");
+                let tr = self.fresh("Scale");
+                let st = self.fresh("Acc");
+                let c = self.rng.below(5);
+                writeln!(self.decls, "trait {tr} {{ fn scale(Self, int32) -> int32; }}\nimpl {tr} for int32 {{ fn scale(self: int32, k: int32) -> int32 {{ let pr = (|x: int32| x * k + self + {c}, k); let (f, n) = pr; f(self) + f(n) }} }}\nstruct {st} {{ v: int32 }}\nimpl {st} {{ fn bump(self: {st}, d: int32) -> int32 {{ let g = |y: int32| {{ let h = |z: int32| z + self.v + y; h(d) }}; g(d) }} }}", tr = tr, st = st, c = c).unwrap();
+                let e = self.int_expr(sc, 1);
+                let e2 = self.int_expr(sc, 1);
+                self.print(&format!("{}::scale({}, {})", tr, e, e2), out);
+                let e3 = self.int_expr(sc, 1);
+                let a = self.fresh("acc");
+                write!(out, "let {} = {} {{ v: {} }}; ", a, st, e3).unwrap();
+                self.print(&format!("{}.bump({})", a, e), out);
+            }
+            14 if self.on(flow::TOPFN) => {
+                self.feat("flow:top-level-fn-value");
+                let t = self.fresh("top");
+                let c = self.rng.below(5);
+                writeln!(self.before, "fn {}(x: int32) -> int32 {{ x * 3 + {} }}", t, c).unwrap();
+                let h = self.fresh("h");
+                write!(out, "let {} = {}; ", h, t).unwrap();
+                sc.push(CV { name: h, ty: CT::F(1) });
+            }
+            15 if top && self.on(flow::RETURN_EARLIER) => self.returned_flow(false, sc, nest, out),
+            _ => {
+                let e = self.int_expr(sc, 2);
+                self.print(&e, out);
+            }
+        }
+    }
+
+    /// a function that returns a closure sharing a Ref cell with its caller; `later`: declared after `main`
+    fn returned_flow(&mut self, later: bool, sc: &mut Vec<CV>, nest: usize, out: &mut String) {
+        self.feat(if later { "flow:returned(callee-declared-later)" } else { "flow:returned" });
+        let mk = self.fresh("mk");
+        // the maker captures its own parameters and lets
+        let mut inner = vec![CV { name: "k".into(), ty: CT::I }, CV { name: "cell".into(), ty: CT::R }];
+        let mut body = String::new();
+        self.stmts(&mut inner, nest.min(2), 2, &mut body, false);
+        let lit = self.closure_lit(&inner, 1, nest.min(2).saturating_sub(1));
+        let text = format!("fn {}(k: int32, cell: Ref[int32]) -> (int32) -> int32 {{ {}{} }}\n", mk, body, lit);
+        if later { self.after.push_str(&text) } else { self.before.push_str(&text) }
+        let refs = Self::vars(sc, &CT::R);
+        let r = if refs.is_empty() {
+            let r = self.fresh("r");
+            write!(out, "let {} = ref(1); ", r).unwrap();
+            sc.push(CV { name: r.clone(), ty: CT::R });
+            r
+        } else {
+            self.rng.pick(&refs).name.clone()
+        };
+        let e = self.int_expr(sc, 1);
+        let h = self.fresh("h");
+        write!(out, "let {} = {}({}, {}); ", h, mk, e, r).unwrap();
+        sc.push(CV { name: h.clone(), ty: CT::F(1) });
+        let c = self.call_of(&h, 1, sc);
+        self.print(&c, out);
+        write!(out, "let _ = ref_set({}, ref_get({}) + 1); ", r, r).unwrap();
+        let c = self.call_of(&h, 1, sc);
+        self.print(&c, out);
+    }
+
+    /// one use of a flow outside the rewriting; each leaves a call whose result is printed
+    fn other_flow(&mut self, f: u32, sc: &mut Vec<CV>, nest: usize, out: &mut String) {
+        let e1 = self.int_expr(sc, 1);
+        match f {
+            flow::ARGUMENT => {
+                let ap = self.fresh("apply");
+                writeln!(self.before, "fn {}(f: (int32) -> int32, x: int32) -> int32 {{ f(f(x)) + 1 }}", ap).unwrap();
+                if self.rng.chance(1, 2) {
+                    let g = self.some_f1(sc, nest, out);
+                    self.print(&format!("{}({}, {})", ap, g, e1), out);
+                } else {
+                    let lit = self.closure_lit(sc, 1, nest.min(1));
+                    self.print(&format!("{}({}, {})", ap, lit, e1), out);
+                }
+            }
+            flow::BRANCH_IF | flow::BRANCH_MATCH | flow::MIXED_TOP => {
+                let a = self.some_f1(sc, nest, out);
+                let b = if f == flow::MIXED_TOP {
+                    let t = self.fresh("top");
+                    writeln!(self.before, "fn {}(x: int32) -> int32 {{ x + 100 }}", t).unwrap();
+                    t
+                } else {
+                    let g = self.fresh("f");
+                    let lit = self.closure_lit(sc, 1, nest.min(1));
+                    write!(out, "let {} = {}; ", g, lit).unwrap();
+                    sc.push(CV { name: g.clone(), ty: CT::F(1) });
+                    g
+                };
+                let h = self.fresh("h");
+                let c = self.int_expr(sc, 1);
+                if f == flow::BRANCH_MATCH {
+                    write!(out, "let {} = match {} {{ 0 => {}, _ => {} }}; ", h, c, a, b).unwrap();
+                } else {
+                    write!(out, "let {} = if {} < 5 {{ {} }} else {{ {} }}; ", h, c, a, b).unwrap();
+                }
+                sc.push(CV { name: h.clone(), ty: CT::F(1) });
+                self.print(&format!("{}({})", h, e1), out);
+            }
+            flow::ARRAY => {
+                let a = self.some_f1(sc, nest, out);
+                let g = self.fresh("f");
+                let lit = self.closure_lit(sc, 1, nest.min(1));
+                write!(out, "let {} = {}; ", g, lit).unwrap();
+                let (arr, h) = (self.fresh("arr"), self.fresh("h"));
+                write!(out, "let {} = [{}, {}]; let {} = array_get({}, {}); ", arr, a, g, h, arr, self.rng.below(2)).unwrap();
+                sc.push(CV { name: h.clone(), ty: CT::F(1) });
+                self.print(&format!("{}({})", h, e1), out);
+            }
+            flow::STRUCT_SHARED => {
+                let s = self.fresh("Shared");
+                writeln!(self.decls, "struct {} {{ f: (int32) -> int32 }}", s).unwrap();
+                let a = self.some_f1(sc, nest, out);
+                let g = self.fresh("f");
+                let lit = self.closure_lit(sc, 1, nest.min(1));
+                write!(out, "let {} = {}; ", g, lit).unwrap();
+                let (b1, b2, h) = (self.fresh("b"), self.fresh("b"), self.fresh("h"));
+                write!(out, "let {} = {} {{ f: {} }}; let {} = {} {{ f: {} }}; let {} = {}.f; ", b1, s, a, b2, s, g, h, b1).unwrap();
+                let _ = b2;
+                sc.push(CV { name: h.clone(), ty: CT::F(1) });
+                self.print(&format!("{}({})", h, e1), out);
+            }
+            flow::CURRIED => {
+                let add = self.fresh("add");
+                let (a, b) = (self.fresh("a"), self.fresh("b"));
+                let mut inner = sc.clone();
+                inner.push(CV { name: a.clone(), ty: CT::I });
+                inner.push(CV { name: b.clone(), ty: CT::I });
+                let body = self.int_expr(&inner, 2);
+                let h = self.fresh("h");
+                write!(out, "let {} = |{}: int32| |{}: int32| {}; let {} = {}({}); ", add, a, b, body, h, add, e1).unwrap();
+                sc.push(CV { name: h.clone(), ty: CT::F(1) });
+                let c = self.call_of(&h, 1, sc);
+                self.print(&c, out);
+            }
+            flow::REFCELL => {
+                let a = self.some_f1(sc, nest, out);
+                let (r, h) = (self.fresh("rc"), self.fresh("h"));
+                write!(out, "let {} = ref({}); let {} = ref_get({}); ", r, a, h, r).unwrap();
+                sc.push(CV { name: h.clone(), ty: CT::F(1) });
+                self.print(&format!("{}({})", h, e1), out);
+            }
+            flow::CLOSURE_PARAM => {
+                let a = self.some_f1(sc, nest, out);
+                let ap = self.fresh("ap");
+                let (h, x) = (self.fresh("h"), self.fresh("a"));
+                write!(out, "let {} = |{}: (int32) -> int32, {}: int32| {}({}) + 1; ", ap, h, x, h, x).unwrap();
+                self.print(&format!("{}({}, {})", ap, a, e1), out);
+            }
+            flow::RETURN_BRANCH => {
+                let mk = self.fresh("choose");
+                writeln!(self.before, "fn {}(c: bool, k: int32) -> (int32) -> int32 {{ if c {{ |x: int32| x + k }} else {{ |y: int32| y * k }} }}", mk).unwrap();
+                let h = self.fresh("h");
+                write!(out, "let {} = {}({} < 5, {}); ", h, mk, e1, self.rng.below(7)).unwrap();
+                sc.push(CV { name: h.clone(), ty: CT::F(1) });
+                let c = self.call_of(&h, 1, sc);
+                self.print(&c, out);
+            }
+            flow::RETURN_LATER => self.returned_flow(true, sc, nest, out),
+            flow::GO_STMT => {
+                let refs = Self::vars(sc, &CT::R);
+                let e = if refs.is_empty() { e1 } else { format!("ref_get({})", self.rng.pick(&refs).name) };
+                write!(out, "go || {{ string_println(int32_to_string({})) }}; ", e).unwrap();
+            }
+            _ => {}
+        }
+    }
+
+    pub fn program(&mut self) -> String {
+        self.decls.push_str("enum Pair { Zero, Two(int32, int32) }\n");
+        let mut body = String::new();
+        let mut sc: Vec<CV> = Vec::new();
+        // a shared cell and a plain value every closure may capture
+        body.push_str("let base = 7; let cell0 = ref(1); ");
+        sc.push(CV { name: "base".into(), ty: CT::I });
+        sc.push(CV { name: "cell0".into(), ty: CT::R });
+        let nest = self.cfg.nest;
+        let n = 3 + self.rng.below(4);
+        self.stmts(&mut sc, nest, n, &mut body, true);
+        if self.on(flow::TUPLE_RETURN) && self.rng.chance(1, 2) {
+            self.feat("flow:tuple-of-closures-returned");
+            let mk = self.fresh("mkpair");
+            writeln!(
+                self.before,
+                "fn {}(start: int32) -> (() -> int32, (int32) -> unit) {{ let c = ref(start); let next = || {{ let v = ref_get(c) + 1; let _ = ref_set(c, v); v }}; let put = |v: int32| {{ let _ = ref_set(c, v); () }}; (next, put) }}",
+                mk
+            )
+            .unwrap();
+            let (nx, pt) = (self.fresh("next"), self.fresh("put"));
+            let e = self.int_expr(&sc, 1);
+            write!(body, "let ({}, {}) = {}({}); ", nx, pt, mk, e).unwrap();
+            self.print(&format!("{}()", nx), &mut body);
+            write!(body, "let _ = {}(40); ", pt).unwrap();
+            self.print(&format!("{}()", nx), &mut body);
+            sc.push(CV { name: nx, ty: CT::F(0) });
+        }
+        for (f, name) in flow::OTHER {
+            if self.on(f) {
+                *self.feats.entry(match name {
+                    "argument" => "flow:argument",
+                    "branch-if" => "flow:branch-if",
+                    "branch-match" => "flow:branch-match",
+                    "array" => "flow:array",
+                    "return-later" => "flow:return-later",
+                    "struct-shared" => "flow:struct-shared",
+                    "curried" => "flow:curried",
+                    "refcell" => "flow:refcell",
+                    "closure-param" => "flow:closure-param",
+                    "mixed-top" => "flow:mixed-top",
+                    "return-branch" => "flow:return-branch",
+                    _ => "flow:go",
+                })
+                .or_default() += 1;
+                self.other_flow(f, &mut sc, nest, &mut body);
+            }
+        }
+        let k = 1 + self.rng.below(3);
+        self.stmts(&mut sc, nest, k, &mut body, true);
+        // every function value still in scope is called once more at the end
+        let fs: Vec<CV> = Self::fvars(&sc).into_iter().cloned().collect();
+        for f in fs {
+            let CT::F(n) = f.ty else { continue };
+            let c = self.call_of(&f.name, n, &sc);
+            self.print(&c, &mut body);
+        }
+        format!("{}{}fn main() {{ {}() }}\n{}", self.decls, self.before, body, self.after)
+    }
+}
+
+pub fn gen_closure_program(rng: &mut Rng, cfg: CloCfg) -> (String, BTreeMap<&'static str, usize>) {
+    let mut g = CloGen { rng, cfg, uid: 0, before: String::new(), after: String::new(), decls: String::new(), feats: BTreeMap::new() };
     let src = g.program();
     (src, g.feats)
 }
